@@ -40,7 +40,14 @@ fn main() {
       if args.len() != 5 {
         tool_error("usage: vh replay <prop> <cases.ndjson> <report.json>");
       }
-      let cases = read_cases(&args[3]);
+      let mut cases = read_cases(&args[3]);
+      // several harnesses pick the concrete realisation of a case (relationship mapping, list placement, network, ...) from
+      // its position; VERIF_SEED shifts the positions so that another seed pairs every case with other realisations
+      let seed: usize = std::env::var("VERIF_SEED").ok().and_then(|v| v.parse().ok()).unwrap_or(1);
+      if cases.len() > 1 && seed != 1 {
+        let k = seed.wrapping_mul(7919) % cases.len();
+        cases.rotate_left(k);
+      }
       let mut rep = Report::new();
       start_watchdog(args[2].to_lowercase(), args[4].clone(), 25);
       note_case(&serde_json::json!("start"));
